@@ -49,7 +49,15 @@ def any_dependency_to_module_other_than(
     for dependent_upon in dependent_upons:
         if dependent_upon == dependent:
             continue
-        nodes_to_exclude.update(get_all_submodules_of(graph, dependent_upon))
+        submodules = get_all_submodules_of(graph, dependent_upon)
+        if dependent_upon.identifier_is_parent_module:
+            # if there is a dependency to the parent module of dependent upon, this counts, as only dependencies to
+            # the true submodules are excluded
+            # reason: if something imports B, then it imports something that is not B.X (and B.X is a dependent_upon module)
+            # (but we do not care if it imports B.X.M, as this is part of B.X)
+            # the parent module remains excluded if it is part of another dependent upon module
+            submodules.discard(dependent_upon.identifier)
+        nodes_to_exclude.update(submodules)
 
     nodes_fulfilling_criteria = []
 
@@ -73,17 +81,6 @@ def any_dependency_to_module_other_than(
         # the parent module itself is not one of its sub modules: if a sub module imports it, this does count
         nodes_not_to_analyse.add(dependent.identifier)
         nodes_that_do_not_fulfill_criterion.discard(dependent.identifier)
-
-    for dependent_upon in dependent_upons:
-        if dependent_upon.identifier_is_parent_module:
-            # if there is a dependency to the parent module of dependent upon, this counts, as only dependencies to
-            # the true submodules are excluded
-            # reason: if something imports B, then it imports something that is not B.X (and B.X is a dependent_upon module)
-            # (but we do not care if it imports B.X.M, as this is part of B.X)
-            try:
-                nodes_to_exclude.remove(dependent_upon.identifier)
-            except KeyError:
-                pass
 
     nodes_to_check = list(nodes_that_do_not_fulfill_criterion)
     checked_nodes = set()
@@ -125,7 +122,14 @@ def any_other_dependency_to_module_than(
     for dependent in dependents:
         if dependent == dependent_upon:
             continue
-        nodes_to_exclude.update(get_all_submodules_of(graph, dependent))
+        submodules = get_all_submodules_of(graph, dependent)
+        if dependent.identifier_is_parent_module:
+            # if the dependent module is defined via a parent module, this parent module counts as an allowed import
+            # reason: we are looking for dependencies other than module A.X. Parent module A is not (only) A.X, so it counts
+            # (submodule A.X.M does not count, as it is not anything else but A.X)
+            # the parent module remains excluded if it is part of another dependent module
+            submodules.discard(dependent.identifier)
+        nodes_to_exclude.update(submodules)
 
     nodes_fulfilling_criteria = []
 
@@ -147,16 +151,6 @@ def any_other_dependency_to_module_than(
         nodes_that_count_as_not_fulfilling_criterion.remove(dependent_upon.identifier)
 
     nodes_to_check = list(nodes_that_count_as_not_fulfilling_criterion)
-
-    for dependent in dependents:
-        if dependent.identifier_is_parent_module:
-            # if the dependent module is defined via a parent module, this parent module counts as an allowed import
-            # reason: we are looking for dependencies other than module A.X. Parent module A is not (only) A.X, so it counts
-            # (submodule A.X.M does not count, as it is not anything else but A.X)
-            try:
-                nodes_to_exclude.remove(dependent.identifier)
-            except KeyError:
-                pass
 
     checked_nodes = set()
 
